@@ -1476,12 +1476,17 @@ def run_c(job, st):
             sym, detail, expected = res
             sig = c_sig(c, res, index)
             st.outcomes[("c", sig)] += 1
-            st.violation(
-                sig,
-                {"part": "c", "label": c["core"], "outside": c["outside"], "pos": c["pos"], "removed": removed,
-                 "bound": list(c["bound"]), "free": list(c["free"]), "case": case, "seed": job["seed"]},
-                "binding analysis: %s" % sym, expected=expected, observed=detail,
-            )
+            vcase = {"part": "c", "label": c["core"], "outside": c["outside"], "pos": c["pos"], "removed": removed,
+                     "bound": list(c["bound"]), "free": list(c["free"]), "case": case, "seed": job["seed"]}
+            if S.get("prelude_searches", 0) < 3:
+                # workers are long-lived and every part of this check compiles templates with imports=: a failure that
+                # needs an earlier compilation in the same process is replayed after one (fresh interpreter)
+                S["prelude_searches"] = S.get("prelude_searches", 0) + 1
+                pre = core.find_prelude("mc.props.c19", vcase, [{"part": "a", "E": "x + y", "seed": job["seed"]}])
+                if pre:
+                    vcase = dict(vcase, prelude=pre)
+                    sig += ":only after another template was compiled in the process"
+            st.violation(sig, vcase, "binding analysis: %s" % sym, expected=expected, observed=detail)
             if removed is None:
                 break  # the name-removal runs of a case that fails with its full environment say nothing new
         if st.states % 199 == 1:
